@@ -583,7 +583,11 @@ class Gen:
             return self.scalar()
         if r < 0.76:
             self.features.add("kind:array")
-            return {"type": "array", "items": self.schema(depth + 1, allow_obj, allow_union)}
+            it = self.schema(depth + 1, allow_obj, allow_union)
+            if self.rng.random() < 0.15:
+                it = self.make_nullable(it)
+                self.features.add("array:nullable_items")
+            return {"type": "array", "items": it}
         if r < 0.86 and allow_union:
             return self.union(depth)
         if allow_obj:
@@ -616,7 +620,11 @@ class Gen:
                 self.features.add("union:model")
             elif r < 0.85 and "a" not in kinds_used:
                 kinds_used.add("a")
-                members.append({"type": "array", "items": self.scalar(self.rng.choice(["str", "int", "date"]))})
+                it = self.scalar(self.rng.choice(["str", "int", "date"]))
+                if self.rng.random() < 0.25:
+                    it = self.make_nullable(it)
+                    self.features.add("union:array_nullable_items")
+                members.append({"type": "array", "items": it})
                 self.features.add("union:array")
             elif "e" not in kinds_used and "s" not in kinds_used and not any(x.startswith("s") for x in kinds_used):
                 kinds_used.add("e")
@@ -1269,7 +1277,9 @@ def typing_stress_docs() -> list[tuple[str, dict]]:
                 "mixed": {"anyOf": [{"type": "string", "format": "date"}, R("N")], "oneOf": [{"type": "string", "format": "uuid"}, {"type": "array", "items": R("N")}]},
                 "mixed2": {"anyOf": [{"type": "string", "format": "date-time"}, {"type": "array", "items": {"type": "string", "format": "date"}}], "oneOf": [R("N2"), {"type": "integer"}]},
                 "mixed3": {"anyOf": [R("E"), {"type": "boolean"}], "oneOf": [{"type": "string", "format": "date"}], "nullable": True}}, "required": ["mixed"]},
-            "Holder": {"type": "object", "properties": {"u": {"oneOf": [R("N"), R("N2"), {"type": "array", "items": {"anyOf": [R("N"), {"type": "string", "format": "uuid"}]}}]}}},
+            "Holder": {"type": "object", "properties": {"u": {"oneOf": [R("N"), R("N2"), {"type": "array", "items": {"anyOf": [R("N"), {"type": "string", "format": "uuid"}]}}]},
+                                                        "nl": {"anyOf": [{"type": "array", "items": ({"type": ["integer", "null"]} if version.startswith("3.1") else {"type": "integer", "nullable": True})}, {"type": "string"}]},
+                                                        "nl2": {"oneOf": [{"type": "array", "items": ({"oneOf": [R("N"), {"type": "null"}]} if version.startswith("3.1") else {"allOf": [R("N")], "nullable": True})}, {"type": "string", "format": "date"}]}}},
         }
         ok = {"description": "ok"}
         d["paths"] = {
